@@ -494,11 +494,13 @@ impl VGen {
 
     pub fn number_sequence(&self, r: &mut Rng) -> NumberSequence {
         let min = if self.xml { 2 } else { 0 };
-        let n = match r.below(6) {
-            0 => min,
-            1 => 2,
-            2 => 3,
-            3 => 20,
+        // Studio stops at 20 keypoints, the formats and the types do not: lengths past 20 and around 2^8 / 2^10 too
+        let n = match r.below(12) {
+            0 | 1 => min,
+            2 | 3 => 2,
+            4 | 5 => 3,
+            6 | 7 => 20,
+            8 => *r.pick(&[21usize, 22, 33, 255, 256, 257, 1025]),
             _ => min + r.below(5),
         };
         NumberSequence {
@@ -510,11 +512,13 @@ impl VGen {
 
     pub fn color_sequence(&self, r: &mut Rng) -> ColorSequence {
         let min = if self.xml { 2 } else { 0 };
-        let n = match r.below(6) {
-            0 => min,
-            1 => 2,
-            2 => 3,
-            3 => 20,
+        // Studio stops at 20 keypoints, the formats and the types do not: lengths past 20 and around 2^8 / 2^10 too
+        let n = match r.below(12) {
+            0 | 1 => min,
+            2 | 3 => 2,
+            4 | 5 => 3,
+            6 | 7 => 20,
+            8 => *r.pick(&[21usize, 22, 33, 255, 256, 257, 1025]),
             _ => min + r.below(5),
         };
         ColorSequence {
